@@ -1725,6 +1725,9 @@ func (n *node) spawn(factory gen.ProcessFactory, options gen.ProcessOptionsExtra
 				n.sendExitMessage(p.pid, pid, messageExit)
 			}
 		}
+		// ... and the ones linked to (or monitoring) this process:
+		// children spawned with the LinkParent option only
+		n.RouteTerminatePID(p.pid, err)
 
 		// terminate meta process that spawned during initialization
 
